@@ -42,7 +42,7 @@ func newWriterLoop(c *kit.Ctx, m *storeModel, w *pointWriter) *writerLoop {
 	f := w.F
 	info := f.Info()
 	// wp: X of the range statement enclosing the Exec
-	rs, _ := f.Enclosing(w.Exec.Call, func(n ast.Node) bool { _, ok := n.(*ast.RangeStmt); return ok }).(*ast.RangeStmt)
+	rs := f.EnclosingLoop(w.Exec.Call)
 	if rs == nil {
 		c.Fatalf("%s: the INSERT Exec is not inside a range loop over the points to write", f.Name)
 	}
@@ -69,14 +69,13 @@ func newWriterLoop(c *kit.Ctx, m *storeModel, w *pointWriter) *writerLoop {
 			e = rhs
 		}
 	}
-	// inLoop: outermost range over the batch that appends to wp
-	ast.Inspect(f.Body, func(n ast.Node) bool {
-		r, ok := n.(*ast.RangeStmt)
-		if !ok || wl.inLoop != nil {
-			return true
+	// inLoop: outermost loop over the batch that appends to wp
+	for _, r := range f.SliceLoops(f.Body) {
+		if wl.inLoop != nil {
+			break
 		}
-		if wl.obj(r.X) != types.Object(w.Batch) || r.Value == nil {
-			return true
+		if wl.obj(r.X) != types.Object(w.Batch) {
+			continue
 		}
 		appends := false
 		ast.Inspect(r.Body, func(x ast.Node) bool {
@@ -85,38 +84,35 @@ func newWriterLoop(c *kit.Ctx, m *storeModel, w *pointWriter) *writerLoop {
 			}
 			return true
 		})
-		if appends {
+		if appends && kit.LoopElemVar(info, r) != nil {
 			wl.inLoop = r
-			wl.in = wl.obj(r.Value)
+			wl.in = kit.LoopElemVar(info, r)
 		}
-		return true
-	})
+	}
 	if wl.inLoop == nil || wl.wp == nil || wl.wids == nil {
 		c.Fatalf("%s: merge loop roles not found (inLoop=%v wp=%v wids=%v)", f.Name, wl.inLoop != nil, wl.wp != nil, wl.wids != nil)
 	}
-	// dbLoop: range nested in inLoop over a data.Points variable other than the batch
-	ast.Inspect(wl.inLoop.Body, func(n ast.Node) bool {
-		r, ok := n.(*ast.RangeStmt)
-		if !ok || wl.dbLoop != nil {
-			return true
+	// dbLoop: loop nested in inLoop over a data.Points variable other than the batch
+	for _, r := range f.SliceLoops(wl.inLoop.Body) {
+		if wl.dbLoop != nil {
+			break
 		}
 		o := wl.obj(r.X)
-		if o == nil || o == types.Object(w.Batch) || r.Value == nil {
-			return true
+		ev := kit.LoopElemVar(info, r)
+		if o == nil || o == types.Object(w.Batch) || ev == nil {
+			continue
 		}
-		if kit.IsNamedType(o.Type(), dataPkg, "Points") {
-			wl.dbLoop, wl.dbPts, wl.db = r, o, wl.obj(r.Value)
+		isPts := kit.IsNamedType(o.Type(), dataPkg, "Points")
+		if sl, ok := o.Type().Underlying().(*types.Slice); ok && kit.IsNamedType(sl.Elem(), dataPkg, "Point") {
+			isPts = true
+		}
+		if isPts {
+			wl.dbLoop, wl.dbPts, wl.db = r, o, ev
 			if r.Key != nil {
 				wl.dbIdx = wl.obj(r.Key)
 			}
-		} else if sl, ok := o.Type().Underlying().(*types.Slice); ok && kit.IsNamedType(sl.Elem(), dataPkg, "Point") {
-			wl.dbLoop, wl.dbPts, wl.db = r, o, wl.obj(r.Value)
-			if r.Key != nil {
-				wl.dbIdx = wl.obj(r.Key)
-			}
 		}
-		return true
-	})
+	}
 	if wl.dbLoop != nil {
 		wl.searchAnchor = wl.dbLoop
 	} else {
